@@ -86,7 +86,7 @@ std::string CTU::FileInfo::toString() const
 std::string CTU::FileInfo::CallBase::toBaseXmlString() const
 {
     std::ostringstream out;
-    out << " " << ATTR_CALL_ID << "=\"" << callId << "\""
+    out << " " << ATTR_CALL_ID << "=\"" << ErrorLogger::toxml(callId) << "\""
         << " " << ATTR_CALL_FUNCNAME << "=\"" << ErrorLogger::toxml(callFunctionName) << "\""
         << " " << ATTR_CALL_ARGNR << "=\"" << callArgNr << "\""
         << " " << ATTR_LOC_FILENAME << "=\"" << ErrorLogger::toxml(location.fileName) << "\""
@@ -126,7 +126,7 @@ std::string CTU::FileInfo::NestedCall::toXmlString() const
     std::ostringstream out;
     out << "<nested-call"
         << toBaseXmlString()
-        << " " << ATTR_MY_ID << "=\"" << myId << "\""
+        << " " << ATTR_MY_ID << "=\"" << ErrorLogger::toxml(myId) << "\""
         << " " << ATTR_MY_ARGNR << "=\"" << myArgNr << "\""
         << "/>";
     return out.str();
@@ -136,9 +136,9 @@ std::string CTU::FileInfo::UnsafeUsage::toString() const
 {
     std::ostringstream out;
     out << "    <unsafe-usage"
-        << " " << ATTR_MY_ID << "=\"" << myId << '\"'
+        << " " << ATTR_MY_ID << "=\"" << ErrorLogger::toxml(myId) << '\"'
         << " " << ATTR_MY_ARGNR << "=\"" << myArgNr << '\"'
-        << " " << ATTR_MY_ARGNAME << "=\"" << myArgumentName << '\"'
+        << " " << ATTR_MY_ARGNAME << "=\"" << ErrorLogger::toxml(myArgumentName) << '\"'
         << " " << ATTR_LOC_FILENAME << "=\"" << ErrorLogger::toxml(location.fileName) << '\"'
         << " " << ATTR_LOC_LINENR << "=\"" << location.lineNumber << '\"'
         << " " << ATTR_LOC_COLUMN << "=\"" << location.column << '\"'
